@@ -404,81 +404,6 @@ theorem completeAll_rel (res : String) (now0 now rt : Nat) (err : Bool) (hle : n
     · rw [if_neg hr0, if_neg hr0]
       exact ⟨rfl, List.Forall₂.cons (hb.mono hle) ih.2⟩
 
-structure RelS (s1 : Sys (Arr Cnt)) (s2 : Sys Hist) : Prop where
-  now : s1.now = s2.now
-  pos : 0 < s1.now
-  live : s1.live = s2.live
-  brs : List.Forall₂ (RelB s1.now) s1.brs s2.brs
-
-/-- the clock never goes backwards along the history -/
-def Timed : Nat → List Op → Prop
-  | _, [] => True
-  | now, .clock t :: r => now ≤ t ∧ Timed t r
-  | now, _ :: r => Timed now r
-
-theorem step_rel {s1 : Sys (Arr Cnt)} {s2 : Sys Hist} (rel : RelS s1 s2) (o : Op)
-    (hclk : ∀ t, o = .clock t → s1.now ≤ t) :
-    (step laOps s1 o).2 = (step histOps s2 o).2 ∧ RelS (step laOps s1 o).1 (step histOps s2 o).1 := by
-  obtain ⟨now1, brs1, live1⟩ := s1
-  obtain ⟨now2, brs2, live2⟩ := s2
-  obtain ⟨hnow, hpos, hlive, hbrs⟩ := rel
-  dsimp only at hnow hpos hlive hbrs hclk
-  subst hnow hlive
-  cases o with
-  | clock t =>
-    have hle := hclk t rfl
-    exact ⟨rfl, ⟨rfl, lt_of_lt_of_le hpos hle, rfl, List.Forall₂.imp (fun _ _ hab => hab.mono hle) hbrs⟩⟩
-  | entry id res batch =>
-    obtain ⟨hc2, hcr⟩ := checkPass_rel res now1 now1 hbrs
-    have hdec : (checkPass res now1 brs2).2.1 = (checkPass res now1 brs1).2.1 := by rw [hc2]
-    have hevs : (checkPass res now1 brs2).2.2 = (checkPass res now1 brs1).2.2 := by rw [hc2]
-    simp only [step, doEntry]
-    rw [hdec, hevs]
-    cases hd : (checkPass res now1 brs1).2.1 with
-    | none =>
-      dsimp only
-      refine ⟨rfl, ⟨rfl, hpos, rfl, ?_⟩⟩
-      dsimp only
-      rw [List.forall₂_map_left_iff, List.forall₂_map_right_iff]
-      exact List.Forall₂.imp (fun _ _ hab => hab.1) hcr
-    | some k =>
-      dsimp only
-      obtain ⟨hr2, hrr⟩ := rollback_rel now1 hcr
-      rw [← hr2]
-      exact ⟨rfl, ⟨rfl, hpos, rfl, hrr⟩⟩
-  | exit id err =>
-    simp only [step, doExit]
-    cases hf : live1.find? (fun x => decide (x.id = id)) with
-    | none => exact ⟨rfl, ⟨rfl, hpos, rfl, hbrs⟩⟩
-    | some e =>
-      dsimp only
-      obtain ⟨hc2, hcr⟩ := completeAll_rel e.res now1 now1 (now1 - e.start) err (le_refl _) hpos hbrs
-      rw [← hc2]
-      exact ⟨rfl, ⟨rfl, hpos, rfl, hcr⟩⟩
-
-theorem run_rel {s1 : Sys (Arr Cnt)} {s2 : Sys Hist} (rel : RelS s1 s2) (ops : List Op) (ht : Timed s1.now ops) :
-    (run laOps s1 ops).2 = (run histOps s2 ops).2 ∧ RelS (run laOps s1 ops).1 (run histOps s2 ops).1 := by
-  induction ops generalizing s1 s2 with
-  | nil => exact ⟨rfl, rel⟩
-  | cons o os ih =>
-    have hclk : ∀ t, o = .clock t → s1.now ≤ t := by
-      intro t ht'; subst ht'; exact ht.1
-    obtain ⟨h2, hr⟩ := step_rel rel o hclk
-    have ht' : Timed (step laOps s1 o).1.now os := by
-      cases o with
-      | clock t => exact ht.2
-      | entry id res batch =>
-        have : (step laOps s1 (.entry id res batch)).1.now = s1.now := by
-          simp only [step, doEntry]; split <;> rfl
-        rw [this]; exact ht
-      | exit id err =>
-        have : (step laOps s1 (.exit id err)).1.now = s1.now := by
-          simp only [step, doExit]; split <;> rfl
-        rw [this]; exact ht
-    obtain ⟨i2, ir⟩ := ih hr ht'
-    simp only [run]
-    exact ⟨by rw [h2, i2], ir⟩
-
 theorem rule_geometry_pos (r : Rule) (h : 0 < r.statI) : 0 < r.n ∧ 0 < r.L := by
   unfold Rule.L Rule.n
   split_ifs with hc
@@ -493,6 +418,216 @@ theorem rule_geometry_pos (r : Rule) (h : 0 < r.statI) : 0 < r.n ∧ 0 < r.L := 
 theorem new_rel (id : Nat) (r : Rule) (now : Nat) (h : 0 < r.statI) : RelB now (Brk.new id r now) (Brk.newAbs id r) := by
   obtain ⟨hn, hL⟩ := rule_geometry_pos r h
   exact ⟨rfl, rfl, rfl, rfl, rfl, mk_R _ _ _ hn hL⟩
+
+/-! ### rule (re)loading -/
+
+/-- stat-reusable rules have the same window geometry -/
+theorem geometry_of_statReusable {o n : Rule} (h : o.statReusable n = true) : o.n = n.n ∧ o.L = n.L := by
+  unfold Rule.statReusable at h
+  simp only [Bool.and_eq_true, beq_iff_eq] at h
+  obtain ⟨⟨⟨_, _⟩, h3⟩, h4⟩ := h
+  unfold Rule.L Rule.n
+  rw [h3, h4]
+  exact ⟨rfl, rfl⟩
+
+theorem forall₂_eraseIdx {α β : Type} {R : α → β → Prop} {l1 : List α} {l2 : List β} (h : List.Forall₂ R l1 l2) (i : Nat) :
+    List.Forall₂ R (l1.eraseIdx i) (l2.eraseIdx i) := by
+  induction h generalizing i with
+  | nil => exact List.Forall₂.nil
+  | cons hab _ ih =>
+    cases i with
+    | zero => simpa using ‹List.Forall₂ R _ _›
+    | succ j => simpa using List.Forall₂.cons hab (ih j)
+
+theorem forall₂_getElem? {α β : Type} {R : α → β → Prop} {l1 : List α} {l2 : List β} (h : List.Forall₂ R l1 l2) (i : Nat) :
+    (l1[i]? = none ∧ l2[i]? = none) ∨ ∃ a b, l1[i]? = some a ∧ l2[i]? = some b ∧ R a b := by
+  induction h generalizing i with
+  | nil => exact Or.inl ⟨rfl, rfl⟩
+  | @cons a b r1 r2 hab _ ih =>
+    cases i with
+    | zero => exact Or.inr ⟨a, b, rfl, rfl, hab⟩
+    | succ j => simpa using ih j
+
+theorem forall₂_filter {α β : Type} {R : α → β → Prop} {l1 : List α} {l2 : List β} (h : List.Forall₂ R l1 l2)
+    (p : α → Bool) (q : β → Bool) (hpq : ∀ a b, R a b → p a = q b) :
+    List.Forall₂ R (l1.filter p) (l2.filter q) := by
+  induction h with
+  | nil => exact List.Forall₂.nil
+  | @cons a b r1 r2 hab _ ih =>
+    simp only [List.filter_cons, ← hpq a b hab]
+    split_ifs
+    · exact List.Forall₂.cons hab ih
+    · exact ih
+
+theorem forall₂_append' {α β : Type} {R : α → β → Prop} {l1 l3 : List α} {l2 l4 : List β} (h : List.Forall₂ R l1 l2)
+    (h' : List.Forall₂ R l3 l4) : List.Forall₂ R (l1 ++ l3) (l2 ++ l4) := by
+  induction h with
+  | nil => exact h'
+  | cons hab _ ih => exact List.Forall₂.cons hab ih
+
+theorem reuseIdx_rel {now : Nat} (r : Rule) {l1 : List (Brk (Arr Cnt))} {l2 : List (Brk Hist)}
+    (h : List.Forall₂ (RelB now) l1 l2) (i : Nat) (acc : Option Nat) : reuseIdx r l1 i acc = reuseIdx r l2 i acc := by
+  induction h generalizing i acc with
+  | nil => rfl
+  | cons hab _ ih =>
+    simp only [reuseIdx, hab.rule]
+    split_ifs
+    · rfl
+    · exact ih _ _
+    · exact ih _ _
+
+/-- the stat index returned by `calculateReuseIndexFor` points at a stat-reusable old breaker -/
+theorem reuseIdx_sr {W : Type} (r : Rule) (l : List (Brk W)) (i : Nat) (acc e : Option Nat) (j : Nat)
+    (h : reuseIdx r l i acc = (e, some j)) :
+    acc = some j ∨ (i ≤ j ∧ ∃ c, l[j - i]? = some c ∧ c.rule.statReusable r = true) := by
+  induction l generalizing i acc with
+  | nil => simp only [reuseIdx, Prod.mk.injEq] at h; exact Or.inl h.2
+  | cons c cs ih =>
+    simp only [reuseIdx] at h
+    split_ifs at h with h1 h2
+    · simp only [Prod.mk.injEq] at h; exact Or.inl h.2
+    · rcases ih _ _ h with hacc | ⟨hle, c', hc', hsr⟩
+      · simp only [Option.some.injEq] at hacc
+        subst hacc
+        simp only [Bool.and_eq_true] at h2
+        exact Or.inr ⟨le_refl _, c, by simp, h2.1⟩
+      · refine Or.inr ⟨by omega, c', ?_, hsr⟩
+        have : j - i = (j - (i + 1)) + 1 := by omega
+        rw [this]; simpa using hc'
+    · rcases ih _ _ h with hacc | ⟨hle, c', hc', hsr⟩
+      · exact Or.inl hacc
+      · refine Or.inr ⟨by omega, c', ?_, hsr⟩
+        have : j - i = (j - (i + 1)) + 1 := by omega
+        rw [this]; simpa using hc'
+
+theorem build_rel (now : Nat) (rules : List Rule) (hv : ∀ r ∈ rules, 0 < r.statI)
+    {l1 : List (Brk (Arr Cnt))} {l2 : List (Brk Hist)} (h : List.Forall₂ (RelB now) l1 l2) (next : Nat) :
+    List.Forall₂ (RelB now) (build laOps now rules l1 next) (build histOps now rules l2 next) := by
+  induction rules generalizing l1 l2 next with
+  | nil => exact List.Forall₂.nil
+  | cons r rs ih =>
+    have hvr := hv r (List.mem_cons_self ..)
+    have hvs : ∀ q ∈ rs, 0 < q.statI := fun q hq => hv q (List.mem_cons_of_mem _ hq)
+    simp only [build]
+    rw [← reuseIdx_rel r h 0 none]
+    rcases hre : reuseIdx r l1 0 none with ⟨e, j⟩
+    cases e with
+    | some i =>
+      dsimp only
+      rcases forall₂_getElem? h i with ⟨h1, h2⟩ | ⟨a, b, h1, h2, hab⟩
+      · rw [h1, h2]; exact ih hvs h _
+      · rw [h1, h2]; exact List.Forall₂.cons hab (ih hvs (forall₂_eraseIdx h i) _)
+    | none =>
+      cases j with
+      | none =>
+        dsimp only
+        obtain ⟨hn, hL⟩ := rule_geometry_pos r hvr
+        exact List.Forall₂.cons ⟨rfl, rfl, rfl, rfl, rfl, mk_R _ _ _ hn hL⟩ (ih hvs h _)
+      | some j =>
+        dsimp only
+        rcases forall₂_getElem? h j with ⟨h1, h2⟩ | ⟨a, b, h1, h2, hab⟩
+        · rw [h1, h2]; exact ih hvs h _
+        · rw [h1, h2]
+          refine List.Forall₂.cons ⟨rfl, rfl, rfl, rfl, rfl, ?_⟩ (ih hvs (forall₂_eraseIdx h j) _)
+          rcases reuseIdx_sr r l1 0 none none j hre with hacc | ⟨_, c, hc, hsr⟩
+          · cases hacc
+          · simp only [Nat.sub_zero] at hc
+            rw [h1] at hc
+            cases hc
+            obtain ⟨g1, g2⟩ := geometry_of_statReusable hsr
+            have hw := hab.w
+            rw [g1, g2] at hw
+            exact hw
+
+structure RelS (s1 : Sys (Arr Cnt)) (s2 : Sys Hist) : Prop where
+  now : s1.now = s2.now
+  pos : 0 < s1.now
+  live : s1.live = s2.live
+  next : s1.next = s2.next
+  brs : List.Forall₂ (RelB s1.now) s1.brs s2.brs
+
+/-- the clock never goes backwards along the history -/
+def Timed : Nat → List Op → Prop
+  | _, [] => True
+  | now, .clock t :: r => now ≤ t ∧ Timed t r
+  | now, _ :: r => Timed now r
+
+theorem step_rel {s1 : Sys (Arr Cnt)} {s2 : Sys Hist} (rel : RelS s1 s2) (o : Op)
+    (hclk : ∀ t, o = .clock t → s1.now ≤ t) (hv : ∀ r ∈ o.rules, 0 < r.statI) :
+    (step laOps s1 o).2 = (step histOps s2 o).2 ∧ RelS (step laOps s1 o).1 (step histOps s2 o).1 := by
+  obtain ⟨now1, brs1, live1, next1⟩ := s1
+  obtain ⟨now2, brs2, live2, next2⟩ := s2
+  obtain ⟨hnow, hpos, hlive, hnext, hbrs⟩ := rel
+  dsimp only at hnow hpos hlive hnext hbrs hclk
+  subst hnow hlive hnext
+  cases o with
+  | clock t =>
+    have hle := hclk t rfl
+    exact ⟨rfl, ⟨rfl, lt_of_lt_of_le hpos hle, rfl, rfl, List.Forall₂.imp (fun _ _ hab => hab.mono hle) hbrs⟩⟩
+  | entry id res batch =>
+    obtain ⟨hc2, hcr⟩ := checkPass_rel res now1 now1 hbrs
+    have hdec : (checkPass res now1 brs2).2.1 = (checkPass res now1 brs1).2.1 := by rw [hc2]
+    have hevs : (checkPass res now1 brs2).2.2 = (checkPass res now1 brs1).2.2 := by rw [hc2]
+    simp only [step, doEntry]
+    rw [hdec, hevs]
+    cases hd : (checkPass res now1 brs1).2.1 with
+    | none =>
+      dsimp only
+      refine ⟨rfl, ⟨rfl, hpos, rfl, rfl, ?_⟩⟩
+      dsimp only
+      rw [List.forall₂_map_left_iff, List.forall₂_map_right_iff]
+      exact List.Forall₂.imp (fun _ _ hab => hab.1) hcr
+    | some k =>
+      dsimp only
+      obtain ⟨hr2, hrr⟩ := rollback_rel now1 hcr
+      rw [← hr2]
+      exact ⟨rfl, ⟨rfl, hpos, rfl, rfl, hrr⟩⟩
+  | exit id err =>
+    simp only [step, doExit]
+    cases hf : live1.find? (fun x => decide (x.id = id)) with
+    | none => exact ⟨rfl, ⟨rfl, hpos, rfl, rfl, hbrs⟩⟩
+    | some e =>
+      dsimp only
+      obtain ⟨hc2, hcr⟩ := completeAll_rel e.res now1 now1 (now1 - e.start) err (le_refl _) hpos hbrs
+      rw [← hc2]
+      exact ⟨rfl, ⟨rfl, hpos, rfl, rfl, hcr⟩⟩
+  | load rules =>
+    exact ⟨rfl, ⟨rfl, hpos, rfl, rfl, build_rel now1 rules hv hbrs next1⟩⟩
+  | loadRes res rules =>
+    refine ⟨rfl, ⟨rfl, hpos, rfl, rfl, ?_⟩⟩
+    apply forall₂_append'
+    · exact forall₂_filter hbrs _ _ (fun a b hab => by rw [hab.rule])
+    · exact build_rel now1 rules hv (forall₂_filter hbrs _ _ (fun a b hab => by rw [hab.rule])) next1
+
+theorem step_now {W : Type} (ops : Rule → WinOps W) (s : Sys W) (o : Op) :
+    (step ops s o).1.now = match o with | .clock t => t | _ => s.now := by
+  cases o with
+  | clock t => rfl
+  | entry id res batch => simp only [step, doEntry]; split <;> rfl
+  | exit id err => simp only [step, doExit]; split <;> rfl
+  | load rules => rfl
+  | loadRes res rules => rfl
+
+theorem run_rel {s1 : Sys (Arr Cnt)} {s2 : Sys Hist} (rel : RelS s1 s2) (ops : List Op) (ht : Timed s1.now ops)
+    (hv : ∀ o ∈ ops, ∀ r ∈ o.rules, 0 < r.statI) :
+    (run laOps s1 ops).2 = (run histOps s2 ops).2 ∧ RelS (run laOps s1 ops).1 (run histOps s2 ops).1 := by
+  induction ops generalizing s1 s2 with
+  | nil => exact ⟨rfl, rel⟩
+  | cons o os ih =>
+    have hclk : ∀ t, o = .clock t → s1.now ≤ t := by
+      intro t ht'; subst ht'; exact ht.1
+    obtain ⟨h2, hr⟩ := step_rel rel o hclk (hv o (List.mem_cons_self ..))
+    have ht' : Timed (step laOps s1 o).1.now os := by
+      rw [step_now]
+      cases o with
+      | clock t => exact ht.2
+      | entry id res batch => exact ht
+      | exit id err => exact ht
+      | load rules => exact ht
+      | loadRes res rules => exact ht
+    obtain ⟨i2, ir⟩ := ih hr ht' (fun o ho => hv o (List.mem_cons_of_mem _ ho))
+    simp only [run]
+    exact ⟨by rw [h2, i2], ir⟩
 
 /-! ## the listener log is a legal walk -/
 
@@ -655,36 +790,238 @@ theorem replay_local {l l' : List (Brk W)} {evs : List Ev} (h : LocalSteps l l' 
       rw [frm k hk.2]
       simp [upd, hk.1]
 
-/-- one op of the system: breakers take local steps, callbacks as shown in the output -/
-theorem step_local (ops : Rule → WinOps W) (s : Sys W) (o : Op) :
-    ∃ mid e1 e2, (step ops s o).2.evs = e1 ++ e2 ∧ LocalSteps s.brs mid e1 ∧ LocalSteps mid (step ops s o).1.brs e2 := by
+/-- one op of the system other than a (re)load: breakers take local steps, callbacks as shown in the output -/
+theorem step_local (ops : Rule → WinOps W) (s : Sys W) (o : Op) (hno : o.rules = [] ∧ ∀ rs, o ≠ .load rs ∧ ∀ x, o ≠ .loadRes x rs) :
+    ∃ mid e1 e2, (step ops s o).2.evs = e1 ++ e2 ∧ LocalSteps s.brs mid e1 ∧ LocalSteps mid (step ops s o).1.brs e2 ∧
+      (step ops s o).1.next = s.next := by
   cases o with
-  | clock t => exact ⟨s.brs, [], [], rfl, LocalSteps.refl _, LocalSteps.refl _⟩
+  | clock t => exact ⟨s.brs, [], [], rfl, LocalSteps.refl _, LocalSteps.refl _, rfl⟩
   | entry id res batch =>
     simp only [step, doEntry]
     cases hd : (checkPass res s.now s.brs).2.1 with
     | none =>
-      exact ⟨_, _, [], (List.append_nil _).symm, checkPass_local res s.now s.brs, LocalSteps.refl _⟩
+      exact ⟨_, _, [], (List.append_nil _).symm, checkPass_local res s.now s.brs, LocalSteps.refl _, rfl⟩
     | some k =>
-      exact ⟨_, _, _, rfl, checkPass_local res s.now s.brs, rollback_local _⟩
+      exact ⟨_, _, _, rfl, checkPass_local res s.now s.brs, rollback_local _, rfl⟩
   | exit id err =>
     simp only [step, doExit]
     cases hf : s.live.find? (fun x => decide (x.id = id)) with
-    | none => exact ⟨s.brs, [], [], rfl, LocalSteps.refl _, LocalSteps.refl _⟩
+    | none => exact ⟨s.brs, [], [], rfl, LocalSteps.refl _, LocalSteps.refl _, rfl⟩
     | some e =>
-      exact ⟨_, _, [], (List.append_nil _).symm, completeAll_local ops e.res s.now _ err s.brs, LocalSteps.refl _⟩
+      exact ⟨_, _, [], (List.append_nil _).symm, completeAll_local ops e.res s.now _ err s.brs, LocalSteps.refl _, rfl⟩
+  | load rules => exact absurd rfl (hno.2 rules).1
+  | loadRes res rules => exact absurd rfl ((hno.2 rules).2 res)
 
-theorem step_replay (ops : Rule → WinOps W) (s : Sys W) (o : Op) (m : Nat → St)
-    (nd : (s.brs.map (·.id)).Nodup) (ag : Agree m s.brs) :
-    ∃ m', replay m (step ops s o).2.evs = some m' ∧ Agree m' (step ops s o).1.brs ∧
-      ((step ops s o).1.brs.map (·.id)) = s.brs.map (·.id) := by
-  obtain ⟨mid, e1, e2, he, l1, l2⟩ := step_local ops s o
-  obtain ⟨m1, hm1, ag1, _⟩ := replay_local l1 m nd ag
-  have nd1 : (mid.map (·.id)).Nodup := by rw [l1.ids]; exact nd
-  obtain ⟨m2, hm2, ag2, _⟩ := replay_local l2 m1 nd1 ag1
-  refine ⟨m2, ?_, ag2, ?_⟩
-  · rw [he, replay_append, hm1]; exact hm2
-  · rw [l2.ids, l1.ids]
+/-! ### (re)loads: who is in the new breaker list -/
+
+theorem getElem?_mem' {α : Type} {l : List α} {i : Nat} {c : α} (h : l[i]? = some c) : c ∈ l := by
+  obtain ⟨hi, rfl⟩ := List.getElem?_eq_some_iff.mp h
+  exact List.getElem_mem hi
+
+theorem mem_eraseIdx_ne {α : Type} (f : α → Nat) {l : List α} (nd : (l.map f).Nodup) {i : Nat} {c : α}
+    (hc : l[i]? = some c) {b : α} (hb : b ∈ l.eraseIdx i) : f b ≠ f c := by
+  induction l generalizing i with
+  | nil => simp at hc
+  | cons a r ih =>
+    simp only [List.map_cons, List.nodup_cons] at nd
+    cases i with
+    | zero =>
+      simp only [List.getElem?_cons_zero, Option.some.injEq] at hc
+      subst hc
+      simp only [List.eraseIdx_cons_zero] at hb
+      intro he; exact nd.1 (by rw [← he]; exact List.mem_map_of_mem hb)
+    | succ j =>
+      simp only [List.getElem?_cons_succ] at hc
+      simp only [List.eraseIdx_cons_succ, List.mem_cons] at hb
+      rcases hb with rfl | hb
+      · intro he; exact nd.1 (by rw [he]; exact List.mem_map_of_mem (getElem?_mem' hc))
+      · exact ih nd.2 hc hb
+
+theorem nodup_eraseIdx {α : Type} (f : α → Nat) {l : List α} (nd : (l.map f).Nodup) (i : Nat) :
+    ((l.eraseIdx i).map f).Nodup :=
+  nd.sublist ((List.eraseIdx_sublist l i).map f)
+
+/-- every breaker after a (re)load is an old one (kept as it was) or a new, closed one with a fresh identity -/
+theorem build_mem (ops : Rule → WinOps W) (now : Nat) (rules : List Rule) (old : List (Brk W)) (next : Nat) :
+    ∀ b ∈ build ops now rules old next,
+      b ∈ old ∨ (next ≤ b.id ∧ b.id < next + rules.length ∧ b.st = .closed ∧ b.curProbe = 0) := by
+  induction rules generalizing old next with
+  | nil => intro b hb; simp [build] at hb
+  | cons r rs ih =>
+    intro b hb
+    simp only [build] at hb
+    have lift : ∀ (old' : List (Brk W)), (∀ x ∈ old', x ∈ old) → b ∈ build ops now rs old' (next+1) →
+        b ∈ old ∨ (next ≤ b.id ∧ b.id < next + (r :: rs).length ∧ b.st = .closed ∧ b.curProbe = 0) := by
+      intro old' hsub hb'
+      rcases ih old' (next+1) b hb' with h | ⟨h1, h2, h3, h4⟩
+      · exact Or.inl (hsub b h)
+      · exact Or.inr ⟨by omega, by simp only [List.length_cons]; omega, h3, h4⟩
+    rcases hre : reuseIdx r old 0 none with ⟨e, j⟩
+    rw [hre] at hb
+    cases e with
+    | some i =>
+      dsimp only at hb
+      cases hc : old[i]? with
+      | none => rw [hc] at hb; exact lift old (fun _ h => h) hb
+      | some c =>
+        rw [hc] at hb
+        rcases List.mem_cons.mp hb with rfl | hb'
+        · exact Or.inl (getElem?_mem' hc)
+        · exact lift _ (fun x hx => List.mem_of_mem_eraseIdx hx) hb'
+    | none =>
+      cases j with
+      | none =>
+        dsimp only at hb
+        rcases List.mem_cons.mp hb with rfl | hb'
+        · exact Or.inr ⟨le_refl _, by simp, rfl, rfl⟩
+        · exact lift old (fun _ h => h) hb'
+      | some j =>
+        dsimp only at hb
+        cases hc : old[j]? with
+        | none => rw [hc] at hb; exact lift old (fun _ h => h) hb
+        | some c =>
+          rw [hc] at hb
+          rcases List.mem_cons.mp hb with rfl | hb'
+          · exact Or.inr ⟨le_refl _, by simp, rfl, rfl⟩
+          · exact lift _ (fun x hx => List.mem_of_mem_eraseIdx hx) hb'
+
+theorem build_nodup (ops : Rule → WinOps W) (now : Nat) (rules : List Rule) (old : List (Brk W)) (next : Nat)
+    (nd : (old.map (·.id)).Nodup) (lt : ∀ b ∈ old, b.id < next) :
+    ((build ops now rules old next).map (·.id)).Nodup := by
+  induction rules generalizing old next with
+  | nil => simp [build]
+  | cons r rs ih =>
+    simp only [build]
+    have ltS : ∀ (old' : List (Brk W)), (∀ x ∈ old', x ∈ old) → ∀ b ∈ old', b.id < next + 1 :=
+      fun old' hsub b hb => Nat.lt_succ_of_lt (lt b (hsub b hb))
+    rcases hre : reuseIdx r old 0 none with ⟨e, j⟩
+    cases e with
+    | some i =>
+      dsimp only
+      cases hc : old[i]? with
+      | none => exact ih old (next+1) nd (ltS old fun _ h => h)
+      | some c =>
+        dsimp only
+        simp only [List.map_cons, List.nodup_cons]
+        refine ⟨?_, ih _ _ (nodup_eraseIdx _ nd i) (ltS _ fun x hx => List.mem_of_mem_eraseIdx hx)⟩
+        intro hmem
+        obtain ⟨b, hb, hbe⟩ := List.mem_map.mp hmem
+        rcases build_mem ops now rs _ _ b hb with h | ⟨h1, _⟩
+        · exact mem_eraseIdx_ne (·.id) nd hc h hbe
+        · have := lt c (getElem?_mem' hc); omega
+    | none =>
+      have headNew : ∀ (old' : List (Brk W)), (∀ x ∈ old', x ∈ old) → (old'.map (·.id)).Nodup → ∀ (w : W),
+          (({ id := next, rule := r, w := w } : Brk W) :: build ops now rs old' (next+1)).map (·.id) |>.Nodup := by
+        intro old' hsub nd' w
+        simp only [List.map_cons, List.nodup_cons]
+        refine ⟨?_, ih _ _ nd' (ltS _ hsub)⟩
+        intro hmem
+        obtain ⟨b, hb, hbe⟩ := List.mem_map.mp hmem
+        rcases build_mem ops now rs _ _ b hb with h | ⟨h1, _⟩
+        · have := lt b (hsub b h); omega
+        · omega
+      cases j with
+      | none => exact headNew old (fun _ h => h) nd _
+      | some j =>
+        dsimp only
+        cases hc : old[j]? with
+        | none => exact ih old (next+1) nd (ltS old fun _ h => h)
+        | some c => exact headNew _ (fun x hx => List.mem_of_mem_eraseIdx hx) (nodup_eraseIdx _ nd j) _
+
+/-- what the listener-log theorem carries along a history: distinct identities below `next`, a state map that
+    agrees with the breakers and is still `Closed` on every identity not handed out yet -/
+structure LogInv (m : Nat → St) (s : Sys W) : Prop where
+  nd : (s.brs.map (·.id)).Nodup
+  ag : Agree m s.brs
+  lt : ∀ b ∈ s.brs, b.id < s.next
+  fr : ∀ k, s.next ≤ k → m k = .closed
+
+theorem step_replay (ops : Rule → WinOps W) (s : Sys W) (o : Op) (m : Nat → St) (inv : LogInv m s) :
+    ∃ m', replay m (step ops s o).2.evs = some m' ∧ LogInv m' (step ops s o).1 := by
+  obtain ⟨nd, ag, lt, fr⟩ := inv
+  have hmemNew : ∀ (old : List (Brk W)) (rules : List Rule), (∀ x ∈ old, x ∈ s.brs) →
+      ∀ b ∈ build ops s.now rules old s.next, (m b.id = b.st) ∧ b.id < s.next + rules.length := by
+    intro old rules hsub b hb
+    rcases build_mem ops s.now rules old s.next b hb with h | ⟨h1, h2, h3, _⟩
+    · exact ⟨ag b (hsub b h), Nat.lt_add_right _ (lt b (hsub b h))⟩
+    · exact ⟨by rw [fr b.id h1, h3], h2⟩
+  cases o with
+  | load rules =>
+    refine ⟨m, rfl, ⟨build_nodup ops s.now rules s.brs s.next nd lt, ?_, ?_, ?_⟩⟩
+    · exact fun b hb => (hmemNew s.brs rules (fun _ h => h) b hb).1
+    · exact fun b hb => (hmemNew s.brs rules (fun _ h => h) b hb).2
+    · intro k hk; exact fr k (Nat.le_trans (Nat.le_add_right _ _) hk)
+  | loadRes res rules =>
+    have hsubE : ∀ x ∈ s.brs.filter (fun b => b.rule.res == res), x ∈ s.brs := fun x hx => (List.mem_filter.mp hx).1
+    have hsubN : ∀ x ∈ s.brs.filter (fun b => b.rule.res != res), x ∈ s.brs := fun x hx => (List.mem_filter.mp hx).1
+    have ndE : ((s.brs.filter fun b => b.rule.res == res).map (·.id)).Nodup := nd.sublist (List.filter_sublist.map _)
+    have ndN : ((s.brs.filter fun b => b.rule.res != res).map (·.id)).Nodup := nd.sublist (List.filter_sublist.map _)
+    have ltE : ∀ b ∈ s.brs.filter (fun b => b.rule.res == res), b.id < s.next := fun b hb => lt b (hsubE b hb)
+    refine ⟨m, rfl, ⟨?_, ?_, ?_, ?_⟩⟩
+    · show ((s.brs.filter (fun b => b.rule.res != res) ++ build ops s.now rules (s.brs.filter fun b => b.rule.res == res) s.next).map (·.id)).Nodup
+      rw [List.map_append, List.nodup_append]
+      refine ⟨ndN, build_nodup ops s.now rules _ s.next ndE ltE, ?_⟩
+      intro x hx y hy hxy
+      obtain ⟨a, ha, rfl⟩ := List.mem_map.mp hx
+      obtain ⟨b, hb, hbe⟩ := List.mem_map.mp hy
+      rcases build_mem ops s.now rules _ s.next b hb with h | ⟨h1, _⟩
+      · have hab : a = b := List.inj_on_of_nodup_map nd (hsubN a ha) (hsubE b h) (by rw [hxy, hbe])
+        subst hab
+        have p1 := (List.mem_filter.mp ha).2
+        have p2 := (List.mem_filter.mp h).2
+        simp only [bne_iff_ne, ne_eq] at p1
+        simp only [beq_iff_eq] at p2
+        exact p1 p2
+      · have := lt a (hsubN a ha); omega
+    · intro b hb
+      rcases List.mem_append.mp hb with h | h
+      · exact ag b (hsubN b h)
+      · exact (hmemNew _ rules hsubE b h).1
+    · intro b hb
+      rcases List.mem_append.mp hb with h | h
+      · exact Nat.lt_add_right _ (lt b (hsubN b h))
+      · exact (hmemNew _ rules hsubE b h).2
+    · intro k hk; exact fr k (Nat.le_trans (Nat.le_add_right _ _) hk)
+  | clock t =>
+    exact ⟨m, rfl, ⟨nd, ag, lt, fr⟩⟩
+  | entry id res batch =>
+    obtain ⟨mid, e1, e2, he, l1, l2, hnx⟩ := step_local ops s (.entry id res batch)
+      ⟨rfl, fun rs => ⟨by simp, fun x => by simp⟩⟩
+    obtain ⟨m1, hm1, ag1, f1⟩ := replay_local l1 m nd ag
+    have nd1 : (mid.map (·.id)).Nodup := by rw [l1.ids]; exact nd
+    obtain ⟨m2, hm2, ag2, f2⟩ := replay_local l2 m1 nd1 ag1
+    have hids : (step ops s (.entry id res batch)).1.brs.map (·.id) = s.brs.map (·.id) := by rw [l2.ids, l1.ids]
+    refine ⟨m2, by rw [he, replay_append, hm1]; exact hm2, ⟨by rw [hids]; exact nd, ag2, ?_, ?_⟩⟩
+    · intro b hb
+      rw [hnx]
+      have : b.id ∈ s.brs.map (·.id) := by rw [← hids]; exact List.mem_map_of_mem hb
+      obtain ⟨c, hc, hce⟩ := List.mem_map.mp this
+      rw [← hce]; exact lt c hc
+    · intro k hk
+      rw [hnx] at hk
+      have hk' : k ∉ s.brs.map (·.id) := by
+        intro hmem; obtain ⟨c, hc, hce⟩ := List.mem_map.mp hmem
+        have := lt c hc; omega
+      rw [f2 k (by rw [l1.ids]; exact hk'), f1 k hk']; exact fr k hk
+  | exit id err =>
+    obtain ⟨mid, e1, e2, he, l1, l2, hnx⟩ := step_local ops s (.exit id err)
+      ⟨rfl, fun rs => ⟨by simp, fun x => by simp⟩⟩
+    obtain ⟨m1, hm1, ag1, f1⟩ := replay_local l1 m nd ag
+    have nd1 : (mid.map (·.id)).Nodup := by rw [l1.ids]; exact nd
+    obtain ⟨m2, hm2, ag2, f2⟩ := replay_local l2 m1 nd1 ag1
+    have hids : (step ops s (.exit id err)).1.brs.map (·.id) = s.brs.map (·.id) := by rw [l2.ids, l1.ids]
+    refine ⟨m2, by rw [he, replay_append, hm1]; exact hm2, ⟨by rw [hids]; exact nd, ag2, ?_, ?_⟩⟩
+    · intro b hb
+      rw [hnx]
+      have : b.id ∈ s.brs.map (·.id) := by rw [← hids]; exact List.mem_map_of_mem hb
+      obtain ⟨c, hc, hce⟩ := List.mem_map.mp this
+      rw [← hce]; exact lt c hc
+    · intro k hk
+      rw [hnx] at hk
+      have hk' : k ∉ s.brs.map (·.id) := by
+        intro hmem; obtain ⟨c, hc, hce⟩ := List.mem_map.mp hmem
+        have := lt c hc; omega
+      rw [f2 k (by rw [l1.ids]; exact hk'), f1 k hk']; exact fr k hk
 
 end walks
 
